@@ -1,0 +1,14 @@
+//go:build verif
+
+package iterator
+
+// VerifHook is called at the named yield points of the iterator when built with the "verif" tag.
+// A conformance harness installs a function that blocks the calling goroutine until its
+// scheduler releases it.
+var VerifHook func(point string, it *Iterator)
+
+func verifPoint(point string, it *Iterator) {
+	if h := VerifHook; h != nil {
+		h(point, it)
+	}
+}
